@@ -10,7 +10,7 @@ BUDGET = {'quick': 2500, 'thorough': 30000}
 TIME_LIMIT = {'quick': 55, 'thorough': 800}
 RULE = ('one result of every kind with a built-in representation (equal, approx-equal, Student, chi-square, Bonferroni, '
         'Holm-Bonferroni, metadata, statistics of tasks / tests / tests by labels, failed evaluation), datasets of shape () '
-        'to 3-d with random failing-bin patterns, then a random sequence of 1-12 read-only operations: bool, oracles, len / '
+        'to 3-d with random failing-bin patterns, bins sometimes open-ended (first / last bin 1e30 wide), compared datasets sometimes sharing a name, then a random sequence of 1-12 read-only operations: bool, oracles, len / '
         'get / index / contains on the classification, classification_counts, table / plot / full representation at every '
         'verbosity, Rst.format_result, fingerprint, data(), pickle.dumps, copy.deepcopy, repr; a deep bit-for-bit snapshot '
         '(array bytes, dtypes, shapes, dictionary keys in order) of the result, its test and its datasets is taken '
